@@ -147,6 +147,16 @@ PROPS['C13'] = {
 PROPS['C07']['units'].append('tos')
 PROPS['C07']['units'].append('deps')
 
+PROPS['C03']['bounded'] = ['merge', 'tos']
+PROPS['C06']['bounded'] = ['merge', 'cli_determinism']
+PROPS['C11']['bounded'] = ['topo', 'deps']
+PROPS['C13']['bounded'] = ['tos']
+PROPS['C16']['bounded'] = ['rename']
+PROPS['C17']['bounded'] = ['write', 'cli_runs']
+PROPS['C18']['bounded'] = ['kint']
+PROPS['C20']['bounded'] = ['cfg_all', 'cli_config']
+PROPS['C07']['bounded'] = ['rename', 'topo', 'cli_robust']
+
 NOT_APPLICABLE = {k: NA_TEXT for k in ['C01', 'C02', 'C04', 'C05', 'C08', 'C09', 'C10', 'C12', 'C14', 'C15', 'C19']}
 
 ALL_UNITS = ['topo', 'rename', 'cfg', 'cfg_all', 'merge', 'write']
@@ -273,6 +283,36 @@ def run_kani(name, workdir, tier, seed):
     return mod.run(workdir, tier, seed)
 
 
+def run_bounded(name, workdir, seed):
+    """bounded stand-in for the functions of the property's pipeline that are outside the verifier's reach (syn walks, iterator
+    glue, text emission, real file system): the unit's native search on the REAL code, run on every check, labelled bounded and
+    never counted as proved.  A failing input is a real violation; finding none proves nothing."""
+    t0 = time.time()
+    mod = importlib.import_module(name)
+    res = {'unit': name + '/bounded', 'backend': 'bounded search on the real code', 'bounded': True, 'status': 'pass',
+           'bound': (getattr(mod, 'native', None) or getattr(mod, 'native_source')).__doc__ or '', 'failed': []}
+    try:
+        exe, err = _native_for(name, workdir)
+        if not exe:
+            res.update(status='undecided', reason='bounded search could not be built: ' + err[-400:])
+            return res
+        w = run_native(exe, ['search'], timeout=600)
+    except Exception as ex:
+        res.update(status='undecided', reason='bounded search failed to run: %r' % ex)
+        return res
+    w['kind'] = name
+    res['wall_s'] = time.time() - t0
+    res['searched'] = w.get('searched')
+    if w.get('found'):
+        res.update(status='violation', witness=w,
+                   failed=[{'class': 'bounded-stand-in', 'function': None, 'section': name,
+                            'message': 'bounded search on the real code found a failing input (functions outside the verifier\'s reach)',
+                            'text': json.dumps(w.get('input'))[:300]}])
+    elif w.get('error'):
+        res.update(status='undecided', reason='bounded search: ' + str(w.get('error'))[:300])
+    return res
+
+
 def thorough_extra(pid, workdir, seed):
     out = []
     for name in PROPS[pid].get('thorough', []):
@@ -311,6 +351,9 @@ def evidence(pid, tier, seed, results, stability, violations, undecided, kf_line
             obligations += (v.get('verified') or 0) + (v.get('errors') or 0)
             discharged += (v.get('verified') or 0)
             cmds.append(v.get('cmd'))
+        elif r.get('bounded'):
+            bounded.append({'unit': r['unit'], 'bound': ' '.join((r.get('bound') or '').split())[:500], 'searched': r.get('searched'), 'status': r['status'],
+                            'wall_s': r.get('wall_s')})
         elif r.get('backend', '').startswith('kani'):
             if r.get('bounded'):
                 bounded.append({'unit': r['unit'], 'bound': r.get('bound'), 'harnesses': r.get('harnesses'), 'status': r['status']})
